@@ -35,7 +35,54 @@ type Query struct {
 	Text     string
 	Features []string
 	Params   map[string]any
-	Source   string // "enum" | corpus file
+	Source   string // "enum" | "pattern-family" | "corpus" | "corpus-neighbourhood" | "optimizer-seed"
+	// MaxEdges / Budget override the tier's bounds for this query (0 = tier default).
+	MaxEdges int
+	Budget   int
+	// ExtraNodes raises the node bound for this query (three-step patterns need three or four distinct nodes on tame graphs).
+	ExtraNodes int
+}
+
+// domain derives the graph domain of a query: the text-sliced domain of the feature grammar for enumerated texts, the
+// model-derived domain (kinds, keys and literals of the query itself) for everything else.
+func (q Query) domain(m *cypher.RegularQuery, b Bounds) Domain {
+	maxEdges, budget := b.MaxEdges, b.Budget
+	if q.MaxEdges > 0 {
+		maxEdges = q.MaxEdges
+	}
+	if q.Budget > 0 {
+		budget = q.Budget
+	}
+	if q.Source == "enum" {
+		return DomainFor(q.Text, b.MaxNodes, maxEdges, budget)
+	}
+	return DomainForModel(m, q.Params, b.MaxNodes+q.ExtraNodes, maxEdges, budget, q.Source != "optimizer-seed")
+}
+
+// withParams gives every $parameter of the query a value (both evaluators receive the same map).
+func (q Query) withParams(m *cypher.RegularQuery) Query {
+	params := map[string]any{}
+	for k, v := range DefaultParams {
+		params[k] = v
+	}
+	for k, v := range q.Params {
+		params[k] = v
+	}
+	cyref.WalkModel(m, func(n cypher.Expression) {
+		if p, ok := n.(*cypher.Parameter); ok {
+			if _, has := params[p.Symbol]; !has {
+				if p.Value != nil {
+					params[p.Symbol] = cyref.Normalize(p.Value)
+				} else if strings.Contains(strings.ToLower(p.Symbol), "id") {
+					params[p.Symbol] = int64(1)
+				} else {
+					params[p.Symbol] = "a"
+				}
+			}
+		}
+	})
+	q.Params = params
+	return q
 }
 
 // Params used for the enumerated texts' $parameters.
@@ -54,7 +101,7 @@ func Queries(k int) []Query {
 	return out
 }
 
-var kindNames = []string{"NodeKind1", "NodeKind2", "EdgeKind1", "EdgeKind2"}
+var kindNames = []string{"NodeKind1", "NodeKind2", "EdgeKind1", "EdgeKind2", "OtherKind", "OtherEdgeKind"}
 
 // NewKindMapper returns the kind mapper used for every translation: the golden corpus' mapper (same ids as the
 // repository's translation tests).
@@ -74,6 +121,24 @@ func NewKindMapper() (*pgutil.InMemoryKindMapper, map[string]int16) {
 		}
 	}
 	return km, ids
+}
+
+// ensureKinds gives every kind of a graph domain an id in the kind mapper (the corpus queries name kinds the golden
+// mapper does not know).
+func ensureKinds(km *pgutil.InMemoryKindMapper, ids map[string]int16, d Domain) {
+	need := append([]string{}, d.EdgeKinds...)
+	for _, ks := range d.NodeKindSets {
+		need = append(need, ks...)
+	}
+	for _, n := range need {
+		if _, ok := ids[n]; !ok {
+			id, err := km.AssertKinds(context.Background(), graph.Kinds{graph.StringKind(n)})
+			if err != nil {
+				core.Fatalf("kind mapper: %v", err)
+			}
+			ids[n] = id[0]
+		}
+	}
 }
 
 // Config is one translation configuration of C02.
